@@ -198,7 +198,7 @@ theorem exitRel_inv (s s' : CSt) (a : Nat) (c : Con) (v e : Nat) (hi : CInv s) (
     simp [hst] at h; subst h
     have hb := step_inv s.b _ b' hi.base hst
     refine cinv_setCon { s with b := b' } a _ hb (fun b x hx => hi.cons b x hx) ?_
-    exact conOk_pc c _ hc rfl (by simp)
+    exact conOk_pc' _ hc (by simp)
 
 
 theorem cstep_inv_base (s s' : CSt) (e : Ev) (hi : CInv s) (hs : cstep s (.base e) = some s') : CInv s' := by
@@ -290,17 +290,17 @@ theorem cstep_inv (s s' : CSt) (e : CEv) (hi : CInv s) (hs : cstep s e = some s'
       have hok := keep a c hc
       obtain ⟨g1, g2, g3, g4, g5, g6, g7⟩ := Bcast.getWaitCh_spec c.bc hok.1
       split at hs
-      · exact exitRel_inv s s' a _ 0 c.ce hi g7 hs
       · split at hs <;> simp at hs <;> subst hs
         · rename_i hce hres
           refine cinv_setCon s a _ hi.base keep ⟨g7, ?_⟩
           simp only
-          refine ⟨⟨g2, Nat.le_refl _, ?_⟩, fun _ => ⟨hres, rfl, by simpa using hce⟩⟩
+          refine ⟨⟨g2, Nat.le_refl _, ?_⟩, fun _ => ⟨hres, trivial, hce⟩⟩
           simp [g5]
         · refine cinv_setCon s a _ hi.base keep ⟨g7, ?_⟩
           simp only
           refine ⟨g2, Nat.le_refl _, ?_⟩
           simp [g5]
+      · exact exitRel_inv s s' a _ 0 c.ce hi g7 hs
   | watch a =>
     simp only [cstep] at hs
     cases hc : getCon s a with
@@ -378,8 +378,7 @@ theorem cstep_inv (s s' : CSt) (e : CEv) (hi : CInv s) (hs : cstep s e = some s'
     | some c =>
       simp only [hc] at hs
       split at hs <;> try simp at hs
-      split at hs <;> try simp at hs
-      exact exitRel_inv s s' a c 0 9 hi (keep a c hc).1 hs
+      exact exitRel_inv s s' a c 0 9 hi (keep a c hc).1 hs.2
   | await a =>
     simp only [cstep] at hs
     cases hc : getCon s a with
@@ -390,9 +389,9 @@ theorem cstep_inv (s s' : CSt) (e : CEv) (hi : CInv s) (hs : cstep s e = some s'
       split at hs <;> try simp at hs
       rename_i v e _
       split at hs
-      · exact exitRel_inv s s' a c v e hi (keep a c hc).1 hs
       · simp at hs; subst hs
         exact cinv_setCon s a _ hi.base keep (conOk_pc' _ (keep a c hc).1 (by simp))
+      · exact exitRel_inv s s' a c v e hi (keep a c hc).1 hs
   | awaitCancel a =>
     simp only [cstep] at hs
     cases hc : getCon s a with
